@@ -223,6 +223,10 @@ def run(ctx):
         ss = [gen.series_nd(rng, m, nd) if nd else gen.series(rng, m) for m in lens]
         kw = gen.rand_settings(rng, min(lens), min(lens), with_mld=False)
         kw.pop("psi", None)
+        x = rng.random()
+        if x < 0.5 and min(lens) >= 2:
+            m = min(lens) - 1
+            kw["psi"] = (rng.randint(0, m), rng.randint(0, m), rng.randint(0, m), rng.randint(0, m))
         if isinstance(kw.get("inner_dist"), str) is False:
             kw.pop("inner_dist", None)
         if rng.random() < 0.5 and n >= 2:
